@@ -42,13 +42,13 @@ RULE = ("random histories on all four grid classes: sizes 1x1..5x5 (62%), tiny g
         "(18%); torus on/off; with/without property layers; 1-7 agents; 5-40 (thorough: 60) ops from {place, remove, move (in-grid, near and far "
         "out-of-grid targets), swap, move_to_empty (scripted draws), move_agent_to_one_of (random/closest/invalid, duplicates, out-of-grid "
         "offers, empty list with all handle_empty modes), empties, exists_empty_cells, is_cell_empty, empty_mask, agents, iteration, indexing}; "
-        "30% of histories read empties only in their second half; a full dump (pos, contents, mask, is_cell_empty) follows every mutating call. "
+        "30% of histories read empties only in their second half; 15% of histories are from the rejecting-call stream (generate_rejecting: most agents placed first, then half of the calls are chosen to be rejected: out-of-grid / occupied targets, unplaced agents, full grid, invalid selection, exhausted generator); a full dump (pos, contents, mask, is_cell_empty) follows every mutating call; 4% of the histories additionally place already-placed agents (outside the quantifier: model-vs-code tie only, no oracle). "
         "non-trivial = at least 3 successful mutating calls and at least one read of empties / exists / move_to_empty")
 
 
 def generate(rng, tier, count):
     for _ in range(count):
-        yield L.gen_c08(rng, tier)
+        yield L.gen_c08(rng, tier, rejecting=rng.random() < 0.15)
 
 
 def generate_rejecting(rng, tier, count):
@@ -70,6 +70,8 @@ def nontrivial(sc, obs):
 
 def tags(sc, obs):
     w = sc.lines[0].split()
+    if sc.meta.get("oq"):
+        yield "stream:outside-quantifier(tie only)"
     yield "kind:" + w[2]
     yield "torus:" + w[5]
     yield "layers:" + w[6]
